@@ -128,13 +128,24 @@ Print Assumptions C15_unlocked_increment_refuted.
    theorems hold for the objects of a concrete history; a complete fair schedule reaches 2*3 *)
 Example C15_witness_recycled :
   let s0 := mk_sm (heap_init 64) mem0 in
-  exists s1 o1 m2 s3 s4 o4,
-    raw_value 64 4 [7; 0; 0; 0] s0 = OK (s1, o1) /\
-    o_write (sm_mem s1) o1 0 [255; 255; 255; 255] = Some m2 /\
-    drop (mk_sm (sm_heap s1) m2) o1 = OK s3 /\
-    sm_mem s3 0 0 = 255 /\
-    raw_value 64 2 [] s3 = OK (s4, o4) /\ o_block o4 = (0, 0, 8) /\ o_read (sm_mem s4) o4 = [0; 0].
-Proof. vm_compute. do 6 eexists. repeat split; reflexivity. Qed.
+  match raw_value 64 4 [7; 0; 0; 0] s0 with
+  | OK (s1, o1) =>
+    match o_write (sm_mem s1) o1 0 [255; 255; 255; 255] with
+    | Some m2 =>
+      match drop (mk_sm (sm_heap s1) m2) o1 with
+      | OK s3 =>
+        match raw_value 64 2 [] s3 with
+        | OK (s4, o4) => (o_read (sm_mem s1) o1, sm_mem s3 0 0, o_block o4, o_read (sm_mem s4) o4)
+                         = ([7; 0; 0; 0], 255, (0, 0, 8), [0; 0])
+        | Err _ => False
+        end
+      | Err _ => False
+      end
+    | None => False
+    end
+  | Err _ => False
+  end.
+Proof. vm_compute. reflexivity. Qed.
 
 Example C15_witness_schedule :
   let w := wrun SharedMem.incr_prog (world_init 10 2 3)
